@@ -31,12 +31,6 @@ X(r, i) == IF Len(r.xs) > 0 THEN r.xs[i] ELSE r.x0 + (i - 1)
 Enc(o) == IF o = None THEN NoneCode ELSE o[1]
 B01(p) == IF p THEN 1 ELSE 0
 
-(* interval_distance: a = first1, b = second1, c = first2, x = second2 *)
-IntervalAccepted(a1, b1, a2, b2) ==
-  IF IntervalAmbiguous(a1, b1, a2, b2)
-  THEN {-Min2(Abs(a2 - a1), Abs(b1 - b2)), -(Min2(b1, b2) - Max2(a1, a2))}
-  ELSE {IntervalDistance(a1, b1, a2, b2)}
-
 \* ------------------------------------------------------------------ narrow rows
 (* the specification says "nothing" (used to classify a rejected result) *)
 NarrowExpectNone(r, x) ==
@@ -71,7 +65,14 @@ OkNextPow2(r, x, v) == Chk(v, Rep(r.S, NextPow2(x)), FALSE, IsNextPow2(x, v))
 OkLog2(r, x, v) == Chk(v, x # 0, FALSE, IsLog2(x, v))
 OkPow2(r, x, v) == Chk(v, x <= MaxExp /\ Rep(r.S, Pow2(x)), FALSE, v = Pow2(x))
 OkBitTest(r, x, v) == Chk(v, TRUE, FALSE, v = B01(BitTest(r.a, x)))
-OkInterval(r, x, v) == Chk(v, r.a <= r.b /\ r.c <= x, FALSE, v \in IntervalAccepted(r.a, r.b, r.c, x))
+(* interval_distance: a = first1, b = second1, c = first2, x = second2; only well-formed intervals *)
+OkInterval(r, x, v) == Chk(v, r.a <= r.b /\ r.c <= x, FALSE, v = IntervalDistance(r.a, r.b, r.c, x))
+(* value preserving conversions (see IntMath.Convert): demanded iff the value is representable in D *)
+ConvFns == {"cast_size", "to_signed", "to_unsigned", "promote_int", "safe_numeric", "enum_to_int", "enum_to_underlying",
+            "int_to_enum", "literal", "mask_c"}
+OkConv(r, x, v) == Chk(v, Rep(r.D, x), FALSE, v = Convert(r.D, x))
+(* cast::to_uint_ptr of &array[a] and &array[x]: equal exactly for the same element *)
+OkUintPtr(r, x, v) == Chk(v, TRUE, FALSE, v = B01(r.a = x))
 
 (* indices of the results of a row that the specification does not explain (dispatch once per row) *)
 NarrowBad(r) ==
@@ -90,6 +91,8 @@ NarrowBad(r) ==
     [] r.f \in {"power_of_2", "shifted_mask"} -> {i \in I : ~OkPow2(r, X(r, i), r.rs[i])}
     [] r.f = "bit_test" -> {i \in I : ~OkBitTest(r, X(r, i), r.rs[i])}
     [] r.f = "interval_distance" -> {i \in I : ~OkInterval(r, X(r, i), r.rs[i])}
+    [] r.f \in ConvFns -> {i \in I : ~OkConv(r, X(r, i), r.rs[i])}
+    [] r.f = "to_uint_ptr" -> {i \in I : ~OkUintPtr(r, X(r, i), r.rs[i])}
 
 (* where the rejected input lies; part of the signature, so that one finding cannot hide another *)
 NarrowRegion(r, x) ==
@@ -97,6 +100,7 @@ NarrowRegion(r, x) ==
     [] r.f = "from_int" -> IF Small(UnsignedOf(r.D)) /\ x > Max(UnsignedOf(r.D)) THEN ":arg>size_type_max" ELSE ""
     [] r.f = "truncation_check" -> IF ~Signed(r.S) /\ Signed(r.D) /\ Bits(r.D) > Bits(r.S) THEN ":unsigned-to-wider-signed" ELSE ""
     [] r.f = "diff" -> IF ~Signed(r.S) /\ Bits(r.S) < 32 THEN ":unsigned-below-int" ELSE ""
+    [] r.f = "interval_distance" -> IF TouchesInside(r.a, r.b, r.c, x) THEN ":touching-inside" ELSE ""
     [] OTHER -> ""
 NarrowClass(r, x, v) ==
   (IF v = ExcCode THEN "exception"
@@ -106,7 +110,7 @@ NarrowClass(r, x, v) ==
 
 NarrowKnown(r) == r.f \in {"truncation_check", "from_int", "ceil_div", "ceil_div_signed", "div", "mod", "clamp", "diff",
                            "is_power_of_2", "next_power_of_2", "log2", "power_of_2", "shifted_mask", "bit_test",
-                           "interval_distance"}
+                           "interval_distance", "to_uint_ptr"} \cup ConvFns
 NarrowReasons(r) ==
   IF ~NarrowKnown(r) THEN {"unknown-function"}
   ELSE {NarrowClass(r, X(r, i), r.rs[i]) : i \in NarrowBad(r)}
@@ -123,6 +127,7 @@ WideDemanded(r) ==
     [] r.f = "next_power_of_2" -> RepZ(r.S, WNextPow2(r.a))
     [] r.f = "log2" -> r.a.s # 0
     [] r.f \in {"power_of_2", "shifted_mask"} -> r.e <= 64 /\ RepZ(r.S, WPow2(r.e))
+    [] r.f \in ConvFns -> RepZ(r.D, r.a)
     [] OTHER -> TRUE
 WideExpectNone(r) ==
   CASE r.f = "truncation_check" -> ~RepZ(r.D, r.a)
@@ -132,7 +137,7 @@ WideExpectNone(r) ==
     [] OTHER -> FALSE
 WideBoolFns == {"is_power_of_2", "bit_test"}
 WideOptFns == {"truncation_check", "from_int", "ceil_div", "ceil_div_signed", "div", "mod", "clamp"}
-WideValFns == {"diff", "next_power_of_2", "log2", "power_of_2", "shifted_mask"}
+WideValFns == {"diff", "next_power_of_2", "log2", "power_of_2", "shifted_mask"} \cup ConvFns
 WellFormedZ(z) == DOMAIN z = {"s", "m"} /\ IsZ(z)
 WideOk(r) ==
   IF r.ex = 1 THEN FALSE
@@ -152,6 +157,7 @@ WideOk(r) ==
             [] r.f = "next_power_of_2" -> v = WNextPow2(r.a)
             [] r.f = "log2" -> Len(v.m) <= 1 /\ v.s >= 0 /\ WIsLog2(r.a, IntOfZ(v))
             [] r.f \in {"power_of_2", "shifted_mask"} -> v = WPow2(r.e)
+            [] r.f \in ConvFns -> v = r.a
 WideRegion(r) ==
   CASE r.f = "ceil_div_signed" -> IF r.b.s < 0 THEN ":divisor<0" ELSE ""
     [] r.f = "from_int" -> IF ~RepZ(UnsignedOf(r.D), r.a) THEN ":arg>size_type_max" ELSE ""
@@ -172,8 +178,22 @@ WideReasons(r) ==
 C06Reasons(r) == IF r.w = 0 THEN NarrowReasons(r) ELSE WideReasons(r)
 C06At(r) == IF r.w = 0 THEN NarrowAt(r) ELSE <<>>
 
+(* in_scope: a rejected record is a VIOLATION of C06 only if the statement of C06 names the function:
+     "cast::truncation_check returns the converted value exactly when the source value is representable
+      in the destination type and nothing otherwise; enum_::from_int returns an enumerator exactly when
+      the integer is below the enum's size; math::ceil_div, ceil_div_signed, div, mod, clamp, diff,
+      is_power_of_2, next_power_of_2, log2, power_of_2 and the bit mask helpers [bit::shifted_mask,
+      bit::mask_c, bit::test] return the exact mathematical result whenever it is representable and an
+      empty optional for a zero divisor or an empty interval."
+   Every other record kind (interval_distance, the conversions of ConvFns except mask_c, to_uint_ptr) is
+   judged and counted, but a disagreement is only an OBSERVATION (evidence coverage.observations). *)
+C06InScopeFns == {"truncation_check", "from_int", "ceil_div", "ceil_div_signed", "div", "mod", "clamp", "diff",
+                  "is_power_of_2", "next_power_of_2", "log2", "power_of_2", "shifted_mask", "mask_c", "bit_test"}
+C06InScope(r) == r.f \in C06InScopeFns
+
 (* RecordLoop's step, keeping one rejected record per distinct (function, reasons) so that a
-   finding with thousands of rejected rows cannot crowd out a different one; all are counted. *)
+   finding with thousands of rejected rows cannot crowd out a different one; all are counted.
+   inscope = the reasons that may become a VIOLATION (the others are observations). *)
 JNext ==
   /\ l <= Len(T)
   /\ l' = l + 1
@@ -182,6 +202,7 @@ JNext ==
      ELSE /\ nbad' = nbad + 1
           /\ bad' = IF \E i \in 1..Len(bad) : bad[i].op = T[l].f /\ bad[i].why = w
                     THEN bad
-                    ELSE Append(bad, [l |-> l, op |-> T[l].f, why |-> w, at |-> C06At(T[l])])
+                    ELSE Append(bad, [l |-> l, op |-> T[l].f, why |-> w, at |-> C06At(T[l]),
+                                      inscope |-> IF C06InScope(T[l]) THEN w ELSE {}])
 JSpec == RLInit /\ [][JNext]_rlvars
 =============================================================================
